@@ -6,11 +6,10 @@ package main
 //   api   g = generic constructors (MonadIOJustGenerics / MonadIONewGenerics, T = int)
 //         i = the interface{} methods (MonadIO.Just / MonadIO.New, T = interface{})
 //   tree  J c | V a | N id | W id | H id | FR t | FL c t b | FC c t b1 b2 | A x c b | O h t | S h t     (see Model/C11.lean)
-//   ops   b (nothing) | e (Eval) | s (Subscribe with OnNext) | z (Subscribe without OnNext) | y (Cor.YieldFromIO)
+//   ops   r <j> (make object j current; 0 = the value built from the tree) | D <j> <c> <tree> (object j := current.FlatMap(cont c, tree))
+//         sg (Subscribe with OnNext whose effect is held at the first G leaf it runs) | g- (open the gate)
+//         b (nothing) | e (Eval) | s (Subscribe with OnNext) | z (Subscribe without OnNext) | y (Cor.YieldFromIO)
 //         o<h> (ObserveOn) | u<h> (SubscribeOn)   h: 0 = nil, 1/2 = unbuffered handlers, 3 = handler with a buffered channel
-//         r<h> ObserveOn(h3), Subscribe while h3's goroutine is busy, then SubscribeOn(h) before the effect has run
-//         d<c> the value becomes m.FlatMap(k_c) (k_c logs K<c>(x), returns Just((x+1)%1000)); a sibling m.FlatMap(k') is derived from
-//              the same m right afterwards and dropped (branching compositions: a shared prefix must not be disturbed)
 // Observation: per op the events logged since the previous op ("-" if none), " | "-separated; e and y prefix "v=<value> ".
 //   events  E<id>@<g>  user effect     K<c>(<x>)@<g>  continuation invoked     D(<x>)@<g>  OnNext delivery
 //   <g>     m = the goroutine running the case, h1/h2/h3 = the handler's run goroutine, ? = any other goroutine
@@ -66,7 +65,7 @@ func c11Parse(toks []string) (*c11Tree, []string, bool) {
 	t := &c11Tree{kind: k}
 	var ok bool
 	switch k {
-	case "J", "V", "N", "W", "H":
+	case "J", "V", "N", "W", "H", "G":
 		if t.a, ok = num(); !ok {
 			return nil, nil, false
 		}
@@ -106,7 +105,7 @@ func (t *c11Tree) String() string {
 	rec = func(t *c11Tree) {
 		b.WriteString(t.kind)
 		switch t.kind {
-		case "J", "V", "N", "W", "H":
+		case "J", "V", "N", "W", "H", "G":
 			fmt.Fprintf(&b, " %d", t.a)
 		case "FL", "FC":
 			fmt.Fprintf(&b, " %d", t.c)
@@ -135,6 +134,24 @@ type c11Env struct {
 	log   []string
 	names map[int64]string
 	h     [4]*fpgo.HandlerDef
+
+	// the gate: after a gated Subscribe ("sg") the first run of a G leaf blocks (after logging) until "g-"
+	gateArmed   bool
+	gateArrived chan struct{}
+	gateOpen    chan struct{}
+}
+
+func (e *c11Env) gate() {
+	e.mu.Lock()
+	if e.gateArmed {
+		e.gateArmed = false
+		arrived, open := e.gateArrived, e.gateOpen
+		e.mu.Unlock()
+		close(arrived)
+		<-open
+		return
+	}
+	e.mu.Unlock()
 }
 
 func (e *c11Env) tagLocked() string {
@@ -159,9 +176,13 @@ func (e *c11Env) effect(id int, val func(n int) int) int {
 	return val(n)
 }
 
-func (e *c11Env) quiesce() {
+// quiesce waits until everything posted so far to the handlers (except the one held by a gated subscription) has run
+func (e *c11Env) quiesce(skip int) {
 	for round := 0; round < 3; round++ {
-		for _, h := range e.h[1:] {
+		for i, h := range e.h {
+			if i == 0 || i == skip {
+				continue
+			}
 			done := make(chan struct{})
 			h.Post(func() { close(done) })
 			<-done
@@ -178,7 +199,7 @@ type c11API[T any] struct {
 	onNext func(func(T)) fpgo.Subscription[T]
 }
 
-// the logging continuation of an FL / FC / A node
+// the continuation of an FL / FC / A node (or of a derive op): logs its invocation, builds the body with the value bound
 func c11Kont[T any](e *c11Env, api *c11API[T], t *c11Tree) func(T) *fpgo.MonadIODef[T] {
 	return func(x T) *fpgo.MonadIODef[T] {
 		xv := api.to(x)
@@ -206,6 +227,13 @@ func c11Build[T any](e *c11Env, api *c11API[T], t *c11Tree, v int) *fpgo.MonadIO
 	case "W":
 		id := t.a
 		return api.newf(func() T { return api.from(e.effect(id, func(n int) int { return (2*v + id + n) % 1000 })) })
+	case "G":
+		id := t.a
+		return api.newf(func() T {
+			val := e.effect(id, func(n int) int { return (7*id + n) % 1000 })
+			e.gate()
+			return api.from(val)
+		})
 	case "H":
 		// network/simpleHTTP.go: the API value is built NOW (no request may be sent), the request goes out when the
 		// MonadIO is evaluated — once per evaluation; the stub transport is the user effect
@@ -241,7 +269,8 @@ func c11Build[T any](e *c11Env, api *c11API[T], t *c11Tree, v int) *fpgo.MonadIO
 	panic("c11: bad tree")
 }
 
-func c11RunCase[T any](api *c11API[T], t *c11Tree, ops []string) string {
+func c11RunCase[T any](api *c11API[T], t *c11Tree, ops []string, allowSame bool) string {
+	sameUnbuffered := func(o, s int) bool { return !allowSame && o == s && (o == 1 || o == 2) }
 	e := &c11Env{names: map[int64]string{fpgo.VerifGoID(): "m"}}
 	e.h[1] = fpgo.Handler.New()
 	e.h[2] = fpgo.Handler.New()
@@ -257,14 +286,19 @@ func c11RunCase[T any](api *c11API[T], t *c11Tree, ops []string) string {
 		})
 		<-done
 	}
+	pending := 0 // the handler held by a gated subscription in flight (0 = none)
 	defer func() {
+		if pending != 0 {
+			close(e.gateOpen)
+			e.quiesce(0)
+		}
 		for _, h := range e.h[1:] {
 			h.Close()
 		}
 	}()
 	seen := 0
 	flush := func() string {
-		e.quiesce()
+		e.quiesce(pending)
 		e.mu.Lock()
 		defer e.mu.Unlock()
 		evs := e.log[seen:]
@@ -274,20 +308,25 @@ func c11RunCase[T any](api *c11API[T], t *c11Tree, ops []string) string {
 		}
 		return strings.Join(evs, " ")
 	}
-	var m *fpgo.MonadIODef[T]
+	// up to four objects; the handler pair set on each is tracked only to refuse (as the model does) operations that
+	// would have to wait for the handler a gated subscription is holding
+	var reg [4]*fpgo.MonadIODef[T]
+	var ob, sub [4]int
+	cur := 0
 	outs := make([]string, 0, len(ops))
 	// construction happens before the first op; whatever it logs is reported with the first op
 	func() {
 		defer func() {
 			if r := recover(); r != nil {
-				m = nil
+				reg[0] = nil
 			}
 		}()
-		m = c11Build(e, api, t, 0)
+		reg[0] = c11Build(e, api, t, 0)
 	}()
-	if m == nil {
+	if reg[0] == nil {
 		return "panic-in-construction"
 	}
+	ob[0], sub[0] = c11RootHandlers(t)
 	for _, op := range ops {
 		out := func() (out string) {
 			defer func() {
@@ -295,49 +334,84 @@ func c11RunCase[T any](api *c11API[T], t *c11Tree, ops []string) string {
 					out = "panic"
 				}
 			}()
+			m := reg[cur]
+			f := strings.Fields(op)
 			switch {
+			case len(f) == 2 && f[0] == "r" && len(f[1]) == 1 && f[1][0] >= '0' && f[1][0] <= '3':
+				j := int(f[1][0] - '0')
+				if reg[j] == nil {
+					return "bad-op"
+				}
+				cur = j
+				return flush()
+			case len(f) >= 4 && f[0] == "D" && len(f[1]) == 1 && f[1][0] >= '0' && f[1][0] <= '3':
+				j := int(f[1][0] - '0')
+				c, err := strconv.Atoi(f[2])
+				body, rest, ok := c11Parse(f[3:])
+				if err != nil || c < 0 || !ok || len(rest) != 0 {
+					return "bad-op"
+				}
+				reg[j] = m.FlatMap(c11Kont(e, api, &c11Tree{kind: "FL", c: c, kids: []*c11Tree{nil, body}}))
+				ob[j], sub[j] = 0, 0
+				return flush()
+			case len(f) != 1:
+				return "bad-op"
+			case op == "sg":
+				if pending != 0 || ob[cur] == 0 || sameUnbuffered(ob[cur], sub[cur]) {
+					return "bad-op"
+				}
+				e.mu.Lock()
+				e.gateArmed, e.gateArrived, e.gateOpen = true, make(chan struct{}), make(chan struct{})
+				arrived := e.gateArrived
+				e.mu.Unlock()
+				delivered := make(chan struct{}, 8)
+				m.Subscribe(api.onNext(func(x T) {
+					e.emit("D(" + strconv.Itoa(api.to(x)) + ")")
+					delivered <- struct{}{}
+				}))
+				select {
+				case <-arrived:
+					pending = ob[cur]
+				case <-delivered: // the chain never reached a gate
+					e.mu.Lock()
+					e.gateArmed = false
+					e.mu.Unlock()
+				}
+				return flush()
+			case op == "g-":
+				if pending != 0 {
+					close(e.gateOpen)
+					pending = 0
+				}
+				return flush()
 			case op == "b":
 				return flush()
 			case op == "e":
 				v := api.to(m.Eval())
 				return "v=" + strconv.Itoa(v) + " " + flush()
 			case op == "s":
+				if sameUnbuffered(ob[cur], sub[cur]) || (pending != 0 && (ob[cur] == pending || sub[cur] == pending)) {
+					return "bad-op"
+				}
 				m.Subscribe(api.onNext(func(x T) { e.emit("D(" + strconv.Itoa(api.to(x)) + ")") }))
 				return flush()
 			case op == "z":
 				m.Subscribe(fpgo.Subscription[T]{})
 				return flush()
 			case op == "y":
-				v := api.to(api.yield(m))
-				return "v=" + strconv.Itoa(v) + " " + flush()
-			case len(op) == 2 && op[0] == 'r' && op[1] >= '0' && op[1] <= '3':
-				// re-configuration in flight: the effect is to run on h3 (buffered), whose goroutine is kept busy; Subscribe
-				// leaves the effect waiting in h3's buffer; the value is given another SubscribeOn handler; then h3 is released.
-				// The subscription made before must still deliver on the handler that was set when Subscribe was called.
-				m = m.ObserveOn(e.h[3])
-				gate, started := make(chan struct{}), make(chan struct{})
-				e.h[3].Post(func() { close(started); <-gate })
-				<-started
-				m.Subscribe(api.onNext(func(x T) { e.emit("D(" + strconv.Itoa(api.to(x)) + ")") }))
-				m = m.SubscribeOn(e.h[op[1]-'0'])
-				close(gate)
-				return flush()
-			case len(op) >= 2 && op[0] == 'd':
-				// a further FlatMap on the composed value, and a SIBLING derived from the same value right afterwards that is
-				// never evaluated: compositions are values, deriving one more from a shared prefix must not disturb the first
-				c, err := strconv.Atoi(op[1:])
-				if err != nil || c < 0 {
+				if pending != 0 && ob[cur] == pending {
 					return "bad-op"
 				}
-				a := m.FlatMap(c11Kont(e, api, &c11Tree{kind: "FL", c: c, kids: []*c11Tree{nil, c11Leaf("V", 1)}}))
-				_ = m.FlatMap(c11Kont(e, api, &c11Tree{kind: "FL", c: c + 500, kids: []*c11Tree{nil, c11Leaf("W", 7)}}))
-				m = a
-				return flush()
+				v := api.to(api.yield(m))
+				sub[cur] = 0
+				return "v=" + strconv.Itoa(v) + " " + flush()
 			case len(op) == 2 && op[0] == 'o' && op[1] >= '0' && op[1] <= '3':
-				m = m.ObserveOn(e.h[op[1]-'0'])
+				reg[cur] = m.ObserveOn(e.h[op[1]-'0'])
+				ob[cur] = int(op[1] - '0')
 				return flush()
 			case len(op) == 2 && op[0] == 'u' && op[1] >= '0' && op[1] <= '3':
-				m = m.SubscribeOn(e.h[op[1]-'0'])
+				reg[cur] = m.SubscribeOn(e.h[op[1]-'0'])
+				sub[cur] = int(op[1] - '0')
 				return flush()
 			}
 			return "bad-op"
@@ -345,6 +419,19 @@ func c11RunCase[T any](api *c11API[T], t *c11Tree, ops []string) string {
 		outs = append(outs, out)
 	}
 	return strings.Join(outs, " | ")
+}
+
+// handler pair of the value a tree builds: the outermost ObserveOn / SubscribeOn on the root chain
+func c11RootHandlers(t *c11Tree) (ob, sub int) {
+	if t.kind == "O" || t.kind == "S" {
+		ob, sub = c11RootHandlers(t.kids[0])
+		if t.kind == "O" {
+			ob = t.h
+		} else {
+			sub = t.h
+		}
+	}
+	return
 }
 
 var c11Generic = &c11API[int]{
@@ -384,10 +471,12 @@ func c11Run(line string) string {
 			ops = append(ops, o)
 		}
 	}
-	if toks[0] == "i" {
-		return c11RunCase(c11Iface, t, ops)
+	// "gs" / "is": the library under test lets a handler post to itself (see design.d/C11.md)
+	allowSame := toks[0] == "gs" || toks[0] == "is"
+	if toks[0] == "i" || toks[0] == "is" {
+		return c11RunCase(c11Iface, t, ops, allowSame)
 	}
-	return c11RunCase(c11Generic, t, ops)
+	return c11RunCase(c11Generic, t, ops, allowSame)
 }
 
 // ---- generators
@@ -536,10 +625,6 @@ func c11Safe(t *c11Tree, script string) bool {
 			ob = int(op[1] - '0')
 		case op[0] == 'u':
 			sub = int(op[1] - '0')
-		case op[0] == 'r':
-			ob, sub = 3, int(op[1]-'0')
-		case op[0] == 'd':
-			ob, sub = 0, 0
 		case op == "y":
 			sub = 0
 		case op == "s":
@@ -573,11 +658,15 @@ func c11Gen(tier string, rng *rand.Rand, emit func(string)) map[string]interface
 	if tier == "thorough" {
 		maxNodes, nRandom, depth = 5, 40000, 7
 	}
+	same := ""
+	if os.Getenv("VERIF_C11_SAMEHANDLER") != "" {
+		same = "s"
+	}
 	api := func(i int) string {
 		if i%3 == 2 {
-			return "i "
+			return "i" + same + " "
 		}
-		return "g "
+		return "g" + same + " "
 	}
 	count := 0
 	put := func(t *c11Tree, script string) {
@@ -636,29 +725,6 @@ func c11Gen(tier string, rng *rand.Rand, emit func(string)) map[string]interface
 			}
 		}
 	}
-	// branching: 1..9 further FlatMaps, each with a sibling derived from the same prefix, then evaluations; whether a FlatMap
-	// result inherits handlers is not fixed by the property, so both are set explicitly before every Subscribe
-	branching := 0
-	branchScripts := []string{"d1 ; e", "d1 ; d2 ; d3 ; d4 ; e ; e", "d1 ; d2 ; d3 ; d4 ; d5 ; d6 ; d7 ; d8 ; d9 ; e",
-		"d1 ; d2 ; d3 ; o1 ; u2 ; s ; d4 ; d5 ; o0 ; u0 ; s ; e", "d3 ; d2 ; e ; d1 ; d1 ; e ; d4 ; d5 ; d6 ; o0 ; u2 ; s"}
-	for n := 1; n <= 3; n++ {
-		for _, t := range c11Trees(n, memo) {
-			for _, sc := range branchScripts {
-				put(t, sc)
-				branching++
-			}
-		}
-	}
-	// re-configuration while a subscription is in flight (both handler fields pinned first)
-	raceScripts := []string{"o0 ; u2 ; r0 ; s", "o1 ; u2 ; r1 ; e", "o0 ; u0 ; r2 ; o0 ; s", "o2 ; u1 ; r3 ; r0 ; r1", "o0 ; u3 ; r2 ; y"}
-	for n := 1; n <= 3; n++ {
-		for _, t := range c11Trees(n, memo) {
-			for _, sc := range raceScripts {
-				put(t, sc)
-				branching++
-			}
-		}
-	}
 	// random
 	depthHist := map[string]int{}
 	for i := 0; i < nRandom; i++ {
@@ -667,11 +733,178 @@ func c11Gen(tier string, rng *rand.Rand, emit func(string)) map[string]interface
 		depthHist[strconv.Itoa(d)]++
 		put(t, c11RandomScript(rng))
 	}
+	raw := func(t *c11Tree, script string) {
+		emit(api(count) + t.String() + ": " + script)
+		count++
+	}
+	// DAG-shaped: several objects derived from the SAME base object (a FlatMap chain of depth d), used in every order;
+	// each must behave as its own composition, the base must be unchanged
+	dag := 0
+	maxChain := 9
+	if tier == "thorough" {
+		maxChain = 20
+	}
+	conts := []string{"11 V 1", "12 W 5", "13 FL 7 N 3 V 2", "14 J 9", "15 FC 8 V 0 N 4 W 6"}
+	for d := 0; d <= maxChain; d++ {
+		for variant := 0; variant < 3; variant++ {
+			base := c11Leaf("N", 1)
+			if variant == 1 {
+				base = c11Leaf("J", 4)
+			}
+			for i := 0; i < d; i++ {
+				body := c11Leaf("V", 1+i%3)
+				if variant == 2 && i%2 == 0 {
+					body = c11Leaf("W", i%9)
+				}
+				base = &c11Tree{kind: "FL", c: i % 9, kids: []*c11Tree{base, body}}
+			}
+			k := func(i int) string { return conts[(i+variant+d)%len(conts)] }
+			for _, sc := range []string{
+				"D 1 " + k(0) + " ; D 2 " + k(1) + " ; r 2 ; e ; r 1 ; e ; r 0 ; e",
+				"D 1 " + k(0) + " ; D 2 " + k(1) + " ; D 3 " + k(2) + " ; r 1 ; e ; r 3 ; s ; r 2 ; o1 ; u2 ; s ; r 1 ; e ; r 0 ; s",
+				"D 1 " + k(0) + " ; r 1 ; e ; r 0 ; D 2 " + k(1) + " ; r 1 ; e ; r 2 ; e ; r 1 ; o3 ; u3 ; s",
+				"D 1 " + k(0) + " ; r 1 ; D 2 " + k(1) + " ; r 0 ; D 3 " + k(2) + " ; r 2 ; e ; r 3 ; e ; r 1 ; e ; r 0 ; e",
+				"D 1 " + k(3) + " ; D 2 " + k(4) + " ; r 1 ; y ; r 2 ; o2 ; u1 ; s ; r 1 ; e",
+			} {
+				raw(base, sc)
+				dag++
+			}
+		}
+	}
+	branch := func(cs []int, tail string) string {
+		var ops []string
+		curReg := 0
+		for _, c := range cs {
+			nxt := 1 + curReg%2 // alternate registers 1 and 2 for the value that goes on; register 3 takes the dropped sibling
+			ops = append(ops, fmt.Sprintf("D %d %d V 1", nxt, c), fmt.Sprintf("D 3 %d W 7", c+500), fmt.Sprintf("r %d", nxt))
+			curReg = nxt
+		}
+		return strings.Join(ops, " ; ") + " ; " + tail
+	}
+	for n := 1; n <= 3; n++ {
+		for _, t := range c11Trees(n, memo) {
+			if c11InnerHandler(t, false) {
+				continue
+			}
+			for _, sc := range []string{branch([]int{1}, "e"), branch([]int{1, 2, 3, 4}, "e ; e"), branch([]int{1, 2, 3, 4, 5, 6, 7, 8, 9}, "e"),
+				branch([]int{1, 2, 3}, "o1 ; u2 ; s") + " ; " + branch([]int{4, 5}, "o0 ; u0 ; s ; e"),
+				branch([]int{3, 2}, "e") + " ; " + branch([]int{1, 1}, "e") + " ; " + branch([]int{4, 5, 6}, "o0 ; u2 ; s")} {
+				raw(t, sc)
+				dag++
+			}
+		}
+	}
+	nDagRandom := nRandom / 5
+	for i := 0; i < nDagRandom; i++ {
+		base := c11Random(rng, 1+rng.Intn(4))
+		var ops []string
+		have := []int{0}
+		cur := 0
+		for n := 3 + rng.Intn(8); n > 0; n-- {
+			switch r := rng.Intn(10); {
+			case r < 3:
+				j := 1 + rng.Intn(3)
+				ops = append(ops, fmt.Sprintf("D %d %d %s", j, 10+rng.Intn(9), c11Random(rng, 1+rng.Intn(3)).String()))
+				seenj := false
+				for _, x := range have {
+					seenj = seenj || x == j
+				}
+				if !seenj {
+					have = append(have, j)
+				}
+			case r < 6:
+				cur = have[rng.Intn(len(have))]
+				ops = append(ops, "r "+strconv.Itoa(cur))
+			case r < 8:
+				ops = append(ops, "e")
+			default:
+				pair := [][2]string{{"o0", "u0"}, {"o1", "u2"}, {"o2", "u0"}, {"o0", "u1"}, {"o3", "u3"}}[rng.Intn(5)]
+				ops = append(ops, pair[0], pair[1], "s")
+			}
+		}
+		raw(base, strings.Join(ops, " ; "))
+		dag++
+	}
+	// a subscription in flight: the effect of a Subscribe is held at a gate on its ObserveOn handler while the SAME object is
+	// re-configured / evaluated / yielded from; then the gate opens.  The delivery must use the pair in force at Subscribe.
+	// (the G leaf is always the last thing of the chain that logs: what runs after the gate is only the delivery)
+	gated := 0
+	gtrees := []*c11Tree{c11Leaf("G", 1),
+		{kind: "FL", c: 1, kids: []*c11Tree{c11Leaf("N", 2), c11Leaf("G", 3)}},
+		{kind: "S", h: 2, kids: []*c11Tree{{kind: "O", h: 1, kids: []*c11Tree{c11Leaf("G", 1)}}}},
+		{kind: "FL", c: 1, kids: []*c11Tree{{kind: "FL", c: 2, kids: []*c11Tree{c11Leaf("W", 4), c11Leaf("N", 5)}}, c11Leaf("G", 6)}},
+		{kind: "FC", c: 3, kids: []*c11Tree{c11Leaf("N", 1), c11Leaf("G", 2), c11Leaf("G", 3)}},
+		{kind: "A", a: 5, c: 1, kids: []*c11Tree{c11Leaf("G", 2)}},
+		{kind: "FR", kids: []*c11Tree{c11Leaf("G", 7)}}}
+	nPrefix := 6
+	if tier == "thorough" {
+		nPrefix = 60
+	}
+	for i := 0; i < nPrefix; i++ {
+		gtrees = append(gtrees, &c11Tree{kind: "FL", c: rng.Intn(9), kids: []*c11Tree{c11Random(rng, 1+rng.Intn(4)), c11Leaf("G", rng.Intn(9))}})
+	}
+	var late []string
+	for ti, gt := range gtrees {
+		if c11InnerHandler(gt, false) {
+			continue
+		}
+		for o := 1; o <= 3; o++ {
+			for sb := 0; sb <= 3; sb++ {
+				if sb == o && o != 3 {
+					continue // same unbuffered handler on both sides: cannot complete even without a gate
+				}
+				var mids []string
+				for x := 0; x <= 3; x++ {
+					if x != sb && x == o && o != 3 {
+						// re-configured to the very handler the subscription is holding: fine for a library that snapshots the pair
+						if ti == 0 {
+							late = append(late, fmt.Sprintf("o%d ; u%d ; sg ; u%d ; g- ; b", o, sb, x))
+						}
+					} else if x != sb {
+						mids = append(mids, "u"+strconv.Itoa(x))
+						mids = append(mids, "u"+strconv.Itoa(x)+" ; o"+strconv.Itoa((o+x)%4))
+					}
+					if x != o {
+						mids = append(mids, "o0 ; u"+strconv.Itoa(x)+" ; s") // a second subscription while the first is in flight
+					}
+				}
+				mids = append(mids, "e", "b")
+				for z := 0; z <= 3; z++ {
+					if z != o {
+						// YieldFromIO re-configures the object itself (SubscribeOn(nil)); whether it does is not part of the
+						// property, so where it would matter for the call itself the script resets subOn explicitly first
+						pre := ""
+						if !(sb == 0 || (sb != o && sb != z)) {
+							pre = "u0 ; "
+						}
+						mids = append(mids, pre+"o"+strconv.Itoa(z)+" ; y")
+					}
+				}
+				for mi, mid := range mids {
+					if ti >= 7 && (mi+ti+o+sb)%4 != 0 {
+						continue // random-prefix trees: a quarter of the grid each
+					}
+					tail := " ; b"
+					if (mi+o+sb)%2 == 0 {
+						tail = " ; o1 ; u2 ; s"
+					}
+					raw(gt, fmt.Sprintf("o%d ; u%d ; sg ; %s ; g-%s", o, sb, mid, tail))
+					gated++
+				}
+			}
+		}
+	}
+	for _, sc := range late {
+		raw(gtrees[0], sc)
+		gated++
+	}
+	raw(&c11Tree{kind: "FL", c: 1, kids: []*c11Tree{c11Leaf("N", 2), c11Leaf("V", 1)}}, "D 1 11 G 3 ; D 2 12 G 4 ; r 1 ; o1 ; u2 ; sg ; u3 ; r 2 ; o2 ; u0 ; s ; r 1 ; o0 ; y ; g- ; r 2 ; e")
+	gated++
 	return map[string]interface{}{
 		"exhaustive": false, "directed_law_cases": directed,
 		"exhaustive_scope": fmt.Sprintf("all trees with <= %d nodes over {J3,V1,N1,N2,W3,H4,FR,FL,FC,A,O1,S2} x %d scripts", maxNodes, len(c11Scripts)),
-		"exhaustive_cases": exhaustive, "branching_cases": branching, "random_cases": nRandom, "random_max_depth": depth, "random_depth_hist": depthHist,
-		"emitted": count,
+		"exhaustive_cases": exhaustive, "random_cases": nRandom, "random_max_depth": depth, "random_depth_hist": depthHist,
+		"dag_cases": dag, "dag_max_chain_depth": maxChain, "gated_cases": gated, "emitted": count,
 	}
 }
 
